@@ -108,6 +108,7 @@ class RunBundler:
         # streams whose events are never re-taken after a rewind (monitors, interruptions)
         self._streams_not_rewound: set[Any] = set()
         self._monitor_params: dict[Subscribable, tuple[Callback, dict]] = dict()  # noqa: C408  # cache of {obj: (cb, kwargs)}
+        self._monitors_suspended = 0  # how many pauses / suspensions currently hold the monitor callbacks off
         # a cache of stream_resource uid to the data_keys that stream_resource collects for
         self._stream_resource_data_keys: dict[str, Iterable[str]] = dict()  # noqa: C408
         self.run_is_open = False
@@ -631,10 +632,21 @@ class RunBundler:
         self.reset_checkpoint_state()
 
     async def suspend_monitors(self):
+        # Pauses and suspensions can overlap (a pause while suspended, two suspenders):
+        # only the first one removes the callbacks and only the last one to end puts
+        # them back, otherwise they end up subscribed more than once.
+        self._monitors_suspended += 1
+        if self._monitors_suspended > 1:
+            return
         for obj, (cb, kwargs) in self._monitor_params.items():  # noqa: B007
             obj.clear_sub(cb)
 
     async def restore_monitors(self):
+        if self._monitors_suspended == 0:
+            return
+        self._monitors_suspended -= 1
+        if self._monitors_suspended:
+            return
         for obj, (cb, kwargs) in self._monitor_params.items():
             obj.subscribe(cb, **kwargs)
 
